@@ -1,0 +1,44 @@
+//go:build verif
+
+package file
+
+import (
+	"crypto/x509"
+	"encoding/asn1"
+	"encoding/pem"
+)
+
+// Verification hooks for the certificate description (see /verif, property C03).
+// Not compiled without the "verif" build tag.
+
+type VerifKeyUsageName struct {
+	Usage int
+	Name  string
+}
+
+// VerifKeyUsageNames returns the key-usage table in the order the code iterates it.
+func VerifKeyUsageNames() []VerifKeyUsageName {
+	var out []VerifKeyUsageName
+	for _, u := range keyUsageNames {
+		out = append(out, VerifKeyUsageName{int(u.usage), u.name})
+	}
+	return out
+}
+
+func VerifX509KeyUsages(ku int) []string { return x509KeyUsages(x509.KeyUsage(ku)) }
+
+func VerifX509EKUs(ekus []int, unknown [][]int) []string {
+	var es []x509.ExtKeyUsage
+	for _, e := range ekus {
+		es = append(es, x509.ExtKeyUsage(e))
+	}
+	var us []asn1.ObjectIdentifier
+	for _, u := range unknown {
+		us = append(us, asn1.ObjectIdentifier(u))
+	}
+	return x509EKUs(es, us)
+}
+
+func VerifGetCertificateInfo(c *x509.Certificate) (Info, error) { return getCertificateInfo(c) }
+func VerifParseCertificate(der []byte) (Info, error)           { return parseCertificate(der) }
+func VerifParsePEMBlock(b *pem.Block) Info                      { return parsePEMBlock(b) }
